@@ -186,6 +186,10 @@ def ChunkKind.tag : ChunkKind → String | .char => "char" | .word => "word" | .
 def ChunkKind.all : List ChunkKind := [.char, .word, .item, .line]
 def ChunkKind.ofTag (s : String) : Option ChunkKind := ChunkKind.all.find? (fun o => o.tag == s)
 
+/-- granularity order of chunk kinds (also the operand of `5c 01`) -/
+def ChunkKind.rank : ChunkKind → Nat
+  | .char => 1 | .word => 2 | .item => 3 | .line => 4
+
 def VarKind.tag : VarKind → String | .loc => "l" | .param => "p" | .glob => "g" | .prop => "r"
 def VarKind.all : List VarKind := [.loc, .param, .glob, .prop]
 def VarKind.ofTag (s : String) : Option VarKind := VarKind.all.find? (fun o => o.tag == s)
